@@ -37,6 +37,26 @@ def check_loop_scan(rep, prog, cb, loop_blocks):
     d = df.defs(cb)
     for bi in loop_blocks:
         ok, seen = False, []
+        # the explicit loop spelling: `for ci in tlv.value.chunks_exact(8) { if ci == own_id { return true } }` - the exit
+        # is taken when an item of a (non-truncated) ChunksExact iterator equals the own identity
+        for l in c.must_literals(bi):
+            if l[0] == "cmp" and l[1] == "eq":
+                for (x, y) in ((l[2], l[3]), (l[3], l[2])):
+                    x0 = df.strip(x)
+                    while x0[0] == "field":
+                        x0 = df.strip(x0[1])
+                    if x0[0] == "call" and x0[2] == "next" and "<ChunksExact as " in x0[1] and \
+                            "default_ds.clock_identity" in df.canon(y, cb):
+                        srcs = []
+                        for bj, tj, cj in mir.iter_calls(cb, name="chunks_exact"):
+                            srcs.append((df.canon(c.prov.op_tree(tj["args"][0]), cb), df.canon(c.prov.op_tree(tj["args"][1]), cb)))
+                        if srcs and all(re.search(r"\.value\)*$", b_) and w_ == "8" and
+                                        not any(z in b_ for z in ("index", "Range", "split", "get(")) for (b_, w_) in srcs):
+                            ok = True
+                            rep.ok("TLV-3", cb.key, "loop check scans the whole received path",
+                                   detail={"form": "for-loop over chunks_exact(.., 8)", "sources": srcs}, where=cb.loc())
+        if ok:
+            continue
         for l in c.must_literals(bi):
             if l[0] != "bool" or l[2] is not True:
                 continue
